@@ -118,6 +118,85 @@ def build_dim(spec):
     return iindex(ents, common, tuple(a.shape))
 
 
+def build_dims(specs):
+    """Real dimensions of a cube.  spec["same_as"] = j (< position) puts THE VERY SAME iindex object that was built for
+    position j at this position (relations between the elements of dims: identity, not equal content)."""
+    objs = []
+    for i, sp in enumerate(specs):
+        j = sp.get("same_as")
+        objs.append(objs[j] if (j is not None and j < i) else build_dim(sp))
+    return objs
+
+
+def gen_related(rng, multi_axis=True):
+    """RELATIONS between the dimensions of one cube (each is an ordinary dimension by itself):
+    the same object at two or three positions (A A, A B A, A A A; 1-, 2- and 3-axis), equal-content twins as distinct
+    objects (rebuilt from the same array, possibly through the other construction path and with the dict entries inserted
+    in another order), a dimension with zero entries (constant column) next to ordinary ones.
+    -> (N, specs with "same_as", pattern name)"""
+    import copy
+    N = rng.randint(1, 8)
+    pattern = rng.choice(["AA", "AA", "ABA", "AAA", "AB-A", "A-twin", "A-twin-reordered", "AZ", "ZA", "AZA", "ZZ"])
+    npos = {"AA": 2, "ABA": 3, "AAA": 3, "AB-A": 3, "A-twin": 2, "A-twin-reordered": 2, "AZ": 2, "ZA": 2, "AZA": 3, "ZZ": 2}[pattern]
+    nA = sum(1 for ch in pattern.replace("-twin", "A").replace("-reordered", "").replace("-A", "A") if ch == "A")
+    hshape = ()
+    if multi_axis:
+        hshape = rng.choice([(), (2,), (3,), (2, 2), (2,)]) if nA <= 2 else rng.choice([(), (2,), (2,)])
+    e = rng.randint(2, 3)
+
+    def column(shape, const=None):
+        size = int(numpy.prod(shape))
+        flat = [const if const is not None else rng.randrange(e) for _ in range(size)]
+        return numpy.array(flat, dtype=numpy.int64).reshape(shape)
+    arrA = column((N,) + tuple(hshape))
+    cA = pick_common(rng, arrA.flatten().tolist(), range(e), rng.choice(["frequent", "rare", "absent"]))
+    A = make_spec(rng, arrA, cA)
+    arrB = column((N,))
+    B = make_spec(rng, arrB, pick_common(rng, arrB.tolist(), range(e), rng.choice(["frequent", "rare"])))
+    zc = rng.randrange(e)
+    Z = make_spec(rng, column((N,), const=zc), zc)          # zero entries: every row holds the common
+
+    def twin(reorder):
+        t = copy.deepcopy(A)
+        t.pop("same_as", None)
+        if reorder or rng.random() < 0.5:                   # same content through the constructor, entries in another dict order
+            t["how"] = "ctor"
+            keys = list(entries_from_dense(arrA, cA).keys())
+            rng.shuffle(keys)
+            t["order"] = [list(k) for k in keys]
+            t["form"] = {"common": "python-int", "rowids": rng.choice(ROWID_FORMS), "coords": "python-int"}
+        return t
+
+    def same(j):
+        t = copy.deepcopy(A)
+        t["same_as"] = j
+        return t
+    if pattern == "AA":
+        specs = [A, same(0)]
+    elif pattern == "ABA":
+        specs = [A, B, same(0)]
+    elif pattern == "AAA":
+        specs = [A, same(0), same(0)]
+    elif pattern == "AB-A":
+        specs = [A, B, twin(False)]
+    elif pattern == "A-twin":
+        specs = [A, twin(False)]
+    elif pattern == "A-twin-reordered":
+        specs = [A, twin(True)]
+    elif pattern == "AZ":
+        specs = [A, Z]
+    elif pattern == "ZA":
+        specs = [Z, A]
+    elif pattern == "AZA":
+        specs = [A, Z, same(0)]
+    else:
+        z2 = copy.deepcopy(Z)
+        z2["same_as"] = 0
+        specs = [Z, z2]
+    assert len(specs) == npos
+    return N, specs, pattern
+
+
 def make_spec(rng, arr, common, allow_from_array=True, vary_form=True):
     a = numpy.asarray(arr, dtype=numpy.int64)
     how = "ctor"
